@@ -527,6 +527,102 @@ fn foreign_non_utf8(prop: &str, proto: Proto, acc: &mut Acc) {
     adapter::reset_verdicts();
 }
 
+/// C15: structured expectations that differ from the token's value by little (a null member more or less, an
+/// empty container, member order is NOT a difference); C16: validators under names the specification also uses in
+/// footers (kid, wpk) or as registered claims, with a JSON-object footer carrying members of those names - the
+/// validator is handed the PAYLOAD's value
+fn structured_and_footer_members(prop: &str, proto: Proto, acc: &mut Acc) {
+    let key = domains::key_pool(proto)[0].clone();
+    let seed = if proto.is_local() { domains::seeds(proto)[2].clone() } else { vec![] };
+    if prop == "C15" {
+        // (token value, expected value, JSON-equal?)
+        let pairs: Vec<(Value, Value, bool)> = vec![
+            (json!({"t": "acme"}), json!({"t": "acme", "r": null}), false),
+            (json!({"t": "acme", "r": null}), json!({"t": "acme"}), false),
+            (json!({"t": "acme", "r": null}), json!({"r": null, "t": "acme"}), true),
+            (json!({"a": {"b": {"c": 1}}}), json!({"a": {"b": {"c": 1, "d": null}}}), false),
+            (json!([{"x": 1}]), json!([{"x": 1, "y": null}]), false),
+            (json!({}), json!({"": null}), false),
+            (json!({"l": []}), json!({"l": [null]}), false),
+            (json!({"l": [1, 2]}), json!({"l": [2, 1]}), false),
+            (json!({"n": [1, {"m": "x"}]}), json!({"n": [1, {"m": "x"}]}), true),
+            (json!({"s": ""}), json!({"s": null}), false),
+            (json!({"o": {}}), json!({"o": null}), false),
+        ];
+        for (tv, ev, equal) in pairs {
+            let payload = json!({"meta": tv, "data": 1}).to_string();
+            let Some(tok) = adapter::core_issue(proto, &key.sk, &seed, &payload, None, None).ok().cloned() else { continue };
+            for layer in [Layer::Generic, Layer::Prelude] {
+                let ops = vec![POp::Check(ClaimSpec { key: "meta".into(), value: ev.clone(), form: Form::TupleString }), POp::Parse(0, 0)];
+                let out = adapter::parse_history(proto, layer, false, &[key.pk.clone()], &[tok.clone()], &ops);
+                acc.executions += 1;
+                let got = matches!(out.last(), Some(PEvent::Parsed(o, _)) if o.is_ok());
+                if got == equal {
+                    acc.bump("structured-expectation:conforms");
+                    if equal {
+                        acc.controls_ok += 1;
+                    }
+                } else {
+                    acc.violate(
+                        format!("C15|{}|{:?}|structured-expectation|{}", proto.name(), layer, if equal { "rejected-equal" } else { "accepted-different" }),
+                        format!("check_claim((\"meta\", {})) on a token carrying \"meta\": {} -> {}, the two values are {}JSON-equal", ev, tv, if got { "accepted" } else { "rejected" }, if equal { "" } else { "not " }),
+                        json!({"config_around_footer": {"proto": proto}, "structured": [tv, ev]}),
+                    );
+                }
+            }
+        }
+    } else {
+        let footer = "{\"kid\":\"k4.lid.FOOTER\",\"wpk\":\"k4.local-wrap.pie.FOOTER\",\"exp\":\"2999-01-01T00:00:00Z\",\"sub\":\"footer-subject\",\"role\":\"footer-role\"}";
+        for (payload, handed) in [
+            ("{\"data\":1}".to_string(), [Value::Null, Value::Null, Value::Null, Value::Null]),
+            ("{\"kid\":\"payload-kid\",\"wpk\":7,\"sub\":\"payload-subject\",\"role\":[\"payload\"]}".to_string(), [json!("payload-kid"), json!(7), json!("payload-subject"), json!(["payload"])]),
+        ] {
+            let Some(tok) = adapter::core_issue(proto, &key.sk, &seed, &payload, Some(footer), None).ok().cloned() else { continue };
+            for layer in [Layer::Generic, Layer::Prelude] {
+                for route in ["validate_claim", "extend_validation_claims"] {
+                    if route == "extend_validation_claims" && layer != Layer::Generic {
+                        continue;
+                    }
+                    adapter::reset_verdicts();
+                    let names = ["kid", "wpk", "sub", "role"];
+                    let mut ops: Vec<POp> = if route == "validate_claim" { names.iter().map(|k| POp::Validate(k.to_string(), 0)).collect() } else { vec![POp::ExtendValidate(names.iter().map(|k| (k.to_string(), 0)).collect())] };
+                    for order in ["footer last", "footer first"] {
+                        let mut o2 = ops.clone();
+                        if order == "footer last" {
+                            o2.push(POp::Footer(footer.into()));
+                        } else {
+                            o2.insert(0, POp::Footer(footer.into()));
+                        }
+                        o2.push(POp::Parse(0, 0));
+                        let _ = adapter::take_calls();
+                        let ev = adapter::parse_history(proto, layer, false, &[key.pk.clone()], &[tok.clone()], &o2);
+                        let Some(PEvent::Parsed(o, calls)) = ev.last() else { continue };
+                        acc.executions += 1;
+                        let mut problem = if o.is_ok() { None } else { Some(format!("the parse failed: {}", o.short())) };
+                        for (i, k) in names.iter().enumerate() {
+                            let mine: Vec<&adapter::ValidatorCall> = calls.iter().filter(|c| c.key == *k).collect();
+                            if mine.len() != 1 || mine[0].value != handed[i] {
+                                problem = Some(format!("the validator for {:?} was handed {:?}, the payload's value is {}", k, mine.iter().map(|c| &c.value).collect::<Vec<_>>(), handed[i]));
+                                break;
+                            }
+                        }
+                        match problem {
+                            None => acc.bump("footer-members:validators-see-payload"),
+                            Some(w) => acc.violate(
+                                format!("C16|{}|{:?}|footer-member-names|{}", proto.name(), layer, route),
+                                format!("{} for kid / wpk / sub / role, parser footer {} ({}), payload {}: {}", route, footer, order, payload, w),
+                                json!({"config_around_footer": {"proto": proto}, "footer_members": payload}),
+                            ),
+                        }
+                    }
+                    ops.clear();
+                }
+            }
+        }
+        adapter::reset_verdicts();
+    }
+}
+
 /// N expectations / N validators on one parser, N on both sides of powers of two: every one of them counts
 fn many_registrations(prop: &str, proto: Proto, quick: bool, acc: &mut Acc) {
     let pool = domains::key_pool(proto);
@@ -707,6 +803,7 @@ pub fn run(prop: &'static str, tier: &str) -> i32 {
                 many_registrations(prop, *p, quick, &mut acc);
             }
             error_variants_and_odd_keys(prop, *p, &mut acc);
+            structured_and_footer_members(prop, *p, &mut acc);
             if prop == "C16" {
                 foreign_non_utf8(prop, *p, &mut acc);
             }
